@@ -84,7 +84,8 @@ def run(rep, tier, seed, replay):
     rep.cov.update(obligations=coq["obligations"], discharged=coq["discharged"], checker_cmd=coq["checker_cmd"],
                    theorems=coq["theorems"], axioms_per_theorem=coq["axioms"],
                    trusted_base=ltv.std_trusted_base(coq, [
-                       "THE TIE IS ENUMERATION, NOT PROOF: the theorems are about the ledger model (coq/C16/Model.v); that the real "
+                       "theorems (all op lists, by induction): ledger_inv, counters_nonneg, abort_releases_all (state level), stop_zero, "
+                       "restartable; THE TIE IS ENUMERATION, NOT PROOF: the theorems are about the ledger model (coq/C16/Model.v); that the real "
                        "teardown code has the ledger effects the model ascribes to each event is checked only on the enumerated "
                        "(scenario, cut offset, fault) cases listed in coverage",
                        "session harness (harness/common/session.{h,cc}, wirepeer.h) + harness/c16.cc: scripted sessions, event recording "
@@ -95,7 +96,7 @@ def run(rep, tier, seed, replay):
                        "modelled not verified: kernel descriptor semantics (closed exactly once is observed through the close() "
                        "interposer only), epoll, choke slot availability (slots are free in every scenario), the 10 s re-unchoke rule "
                        "as a per-direction flag (no time passes inside a scripted session except the PEX tick), handshake writes always "
-                       "complete, one block per piece, hash results only as 'verified' events, MSE handshakes, "
+                       "complete, hash results only as 'verified' events, MSE handshakes, "
                        "DownloadMain::do_peer_exchange's activation conditions",
                        "property oracle evaluated in harness/c16.cc on the implementation; classification in props/c16.py"]))
     impl = ltv.build_harness("c16", ["c16.cc", "common/session.cc"])
@@ -130,6 +131,12 @@ def run(rep, tier, seed, replay):
                 nontrivial.add(hashlib.sha1(case.encode()).digest())
         if len(samples) < 6 and i % 997 == 5:
             samples.append({"case": case, "impl": full[:700], "model": m[:400]})
+        if "post=[-]" in full:
+            # the harness abandoned the session after reporting an orphaned PEX slot: only the pre-fault ledger exists
+            a = re.search(r"pre=\[(.*?)\]", full)
+            b = re.search(r"pre=\[(.*?)\]", m)
+            want = "pre=[%s]" % strip_ledger(a.group(1) + " ").rstrip() if a else want
+            m = "pre=[%s]" % b.group(1) if b else m
         if model and want != m:
             mism += 1
             if viol:
@@ -161,15 +168,17 @@ def run(rep, tier, seed, replay):
     stats["distinct_pre_fault_row_shapes"] = len(pre_kinds)
     rep.cov.update(evaluations=len(cases) + len(shutdown), distinct_nontrivial=len(nontrivial),
                    traces_validated_against_impl=len(cases) - mism,
-                   rule="cases = corpus + for each of 7 scripted sessions (incoming / outgoing plain handshake, seeding with requests in "
+                   rule="cases = corpus + for each of 11 scripted sessions (incoming / outgoing plain handshake, seeding with requests in "
                         "flight, leeching mid-piece, two peers with a dissimilar transfer, PEX enabled, three peers in different "
-                        "states): cut offsets (quick: every handshake threshold and message boundary +-1, PIECE header and mismatch "
-                        "thresholds, a seeded stride elsewhere; thorough: EVERY offset 0..N) x faults (peer close / RST / half close per "
+                        "states, multi-block pieces with pipelined requests, four simultaneous handshakes, connection list full with "
+                        "racing handshakes (+ the same with PEX-enabled extension peers)): cut offsets (quick: every handshake threshold and message boundary +-1, PIECE header and mismatch "
+                        "thresholds, block boundary + 0..12 bytes, a seeded stride elsewhere; thorough: EVERY offset 0..N, with the reduced fault "
+                        "set {close per peer, stop} off the boundaries of the 16 KiB-block script) x faults (peer close / RST / half close per "
                         "peer, 500 s timeout, local stop / close / remove, all peers at once) + library shutdown cases (one process each); "
                         "non-trivial = distinct case in which at least one handshake or connection was live in the library when the fault hit",
                    samples=samples, input_distribution=stats, mismatches=mism,
                    exhaustive=(tier == "thorough"),
-                   explanation="exhaustive (thorough tier) means every byte offset of the 7 fixed scripts, not every session")
-    rep.assumptions += ["plain (unencrypted) handshakes", "one block per piece (2048-byte pieces)", "choke slots available",
+                   explanation="exhaustive (thorough tier) means every byte offset of the 11 fixed scripts, not every session")
+    rep.assumptions += ["plain (unencrypted) handshakes", "pieces of 1 block (2048 bytes) or 2 blocks (32 KiB)", "choke slots available",
                         "throttles unlimited", "a single active torrent per session",
                         "the correspondence between model and code is established by enumeration of the listed faults only"]
